@@ -1,5 +1,5 @@
 import Proofs.C10
-import Proofs.Gen
+import Proofs.GenStore
 #print axioms Xsel.C10.build_size_pos
 #print axioms Xsel.C10.build_pos_eq_index
 #print axioms Xsel.C10.build_pos_inj
